@@ -127,61 +127,79 @@ def errPass (a : LSt) (e : Err) : LSt :=
                | none => 0,
              buf := a.buf.map fun (bl, _) => (bl, bl + 1) }
 
+inductive Step where
+  | done (a : LSt)
+  | retry (bq : Nat) (a : LSt)
+
+def runeTail (b : Byte) (bq : Nat) (a : LSt) : LSt :=
+  let a := if b == 96 then { a with lastBqEsc := bq } else a
+  let a := a.litPush [b]
+  { a with w := 1, r := b.toNat }
+
+def runeAfterEsc (b : Byte) (bq : Nat) (a : LSt) : Step :=
+  let a := { a with readEOF := false,
+                    ok := a.ok && (a.openBq == 0 || a.look ≥ 1 || a.rest.isEmpty) }
+  match a.rest with
+  | c :: _ =>
+    if a.openBq > 0 && ((bq < a.openBq && St.bquoteEscaped c) || (bq < a.openBqDbl && c == 34)) then
+      .retry (bq + 1) { a with col := a.col + 1 }
+    else .done (runeTail b bq a)
+  | [] => .done (runeTail b bq a)
+
+def runeBackslash (b : Byte) (bq : Nat) (a : LSt) : Step :=
+  if a.r == 92 then runeAfterEsc b bq a
+  else
+    let (pk, a) := a.peek
+    if pk == 10 then .done { a.consume with w := 1, r := escNewl }
+    else
+      let (p1, p2, a) := a.peekTwo
+      if p1 == 13 && p2 == 10 then
+        .done { (a.consumeN 2) with col := a.col + 1, w := 2, r := escNewl }
+      else runeAfterEsc b bq a
+
+def runeAscii (b : Byte) (bq : Nat) (a : LSt) : Step :=
+  let a := a.consume
+  if b == 0 then .retry bq { a with col := a.col + 1 }
+  else if b == 13 then
+    let (pk, a) := a.peek
+    if pk == 10 then .retry bq { a with col := a.col + 1 } else .done (runeTail b bq a)
+  else if b == 92 then runeBackslash b bq a
+  else .done (runeTail b bq a)
+
+def runeDecode (a : LSt) : LSt :=
+  let (r, w) := decodeRune a.rest
+  let a := { a with r }
+  let a := if r == runeError && !fullRune a.rest then a.fillE else a
+  let bytes := a.rest.take w
+  let a := a.litPush bytes
+  let a := a.consumeN w
+  let a := { a with behind := some bytes.reverse }
+  let a := if a.r == runeError && w == 1 then
+      let (o, l, c) := a.nextPos
+      a.errPass (.utf8 o l c)
+    else a
+  { a with w }
+
+def runeAtEOF (a : LSt) : LSt :=
+  let a := a.fillE
+  let a := match a.buf with
+    | some (0, bp) => { a with consumed := a.consumed - bp + 1, buf := some (0, 1) }
+    | _ => a
+  { a with r := runeEOF, w := 1, behind := none }
+
+def runeStep (bq : Nat) (a : LSt) : Step :=
+  match a.rest with
+  | [] => .done (runeAtEOF a)
+  | b :: _ =>
+    let a := { a with look := max a.look 1, behind := none }
+    if b.toNat < 0x80 then runeAscii b bq a else .done (runeDecode a)
+
 def runeLoop : Nat → Nat → LSt → LSt
   | 0, _, a => a
   | fuel + 1, bq, a =>
-    match a.rest with
-    | [] =>
-      let a := a.fillE
-      let a := match a.buf with
-        | some (0, bp) => { a with consumed := a.consumed - bp + 1, buf := some (0, 1) }
-        | _ => a
-      { a with r := runeEOF, w := 1, behind := none }
-    | b :: _ =>
-      let a := { a with look := max a.look 1, behind := none }
-      if b.toNat < 0x80 then
-        let a := a.consume
-        let tail (a : LSt) : LSt :=
-          let a := if b == 96 then { a with lastBqEsc := bq } else a
-          let a := a.litPush [b]
-          { a with w := 1, r := b.toNat }
-        if b == 0 then runeLoop fuel bq { a with col := a.col + 1 }
-        else if b == 13 then
-          let (pk, a) := a.peek
-          if pk == 10 then runeLoop fuel bq { a with col := a.col + 1 } else tail a
-        else if b == 92 then
-          let afterEsc (a : LSt) : LSt :=
-            let a := { a with readEOF := false,
-                              ok := a.ok && (a.openBq == 0 || a.look ≥ 1 || a.rest.isEmpty) }
-            match a.rest with
-            | c :: _ =>
-              if a.openBq > 0 && ((bq < a.openBq && St.bquoteEscaped c) || (bq < a.openBqDbl && c == 34)) then
-                runeLoop fuel (bq + 1) { a with col := a.col + 1 }
-              else tail a
-            | [] => tail a
-          if a.r == 92 then afterEsc a
-          else
-            let (pk, a) := a.peek
-            if pk == 10 then { a.consume with w := 1, r := escNewl }
-            else
-              let (p1, p2, a) := a.peekTwo
-              if p1 == 13 && p2 == 10 then
-                { (a.consumeN 2) with col := a.col + 1, w := 2, r := escNewl }
-              else afterEsc a
-        else tail a
-      else
-        let (r, w) := decodeRune a.rest
-        let a := { a with r }
-        let a := if r == runeError && !fullRune a.rest then a.fillE else a
-        let bytes := a.rest.take w
-        let a := a.litPush bytes
-        let a := a.consumeN w
-        let a := { a with behind := some bytes.reverse }
-        let a := if a.r == runeError && w == 1 then
-            let (o, l, c) := a.nextPos
-            a.errPass (.utf8 o l c)
-          else a
-        { a with w }
+    match runeStep bq a with
+    | .done a => a
+    | .retry bq a => runeLoop fuel bq a
 
 def rune (a : LSt) : Nat × LSt :=
   let a := if a.r == 10 || a.r == escNewl then { a with line := a.line + 1, col := 0 } else a
